@@ -306,7 +306,7 @@ def fuzz_engine(pid, tier, seed, exe, workdir, V):
     """C19: one byte- or structure-level mutation of a valid database directory (or a stray entry), then a
     battery of API calls, each under recover() and a watchdog; outcome class per call."""
     import concurrent.futures
-    n = 25 if tier == 'quick' else 400
+    n = 80 if tier == 'quick' else 1500
     res = {'oracle_failures': [], 'evaluations': 0, 'nontrivial': 0, 'samples': []}
     kinds = {}
     classes = {}
@@ -338,6 +338,26 @@ def fuzz_engine(pid, tier, seed, exe, workdir, V):
     return res
 
 
+def tags_engine(pid, tier, seed, exe, workdir, V):
+    """C16: struct tags listing the same options in every order (top level, nested, behind a pointer):
+    derived constraints vs the reading of the tag as a set; canonical storage, case-insensitive search and
+    uniqueness on canonical values on a collection created from the tags (model-free oracle)."""
+    res = {'oracle_failures': [], 'evaluations': 0, 'nontrivial': 0, 'samples': []}
+    out = os.path.join(workdir, 'tags.txt')
+    _sh([exe, '-tags', '-out', out], timeout=600)
+    txt = open(out).read() if os.path.exists(out) else ''
+    for l in txt.splitlines():
+        if l.startswith('! C16'):
+            res['oracle_failures'].append({'line': l, 'replay': [l], 'hist': 'struct tags'})
+        elif l.startswith('tag '):
+            res['evaluations'] += 1
+            res['nontrivial'] += 1
+    if 'tags done' not in txt:
+        res['broken'] = 'tag engine did not finish: ' + txt[-500:]
+    res['summary'] = '%d tagged field paths checked' % res['evaluations']
+    return res
+
+
 def run_extra(pid, tier, seed, exe, workdir, V):
     mod = EXTRA.get(pid)
     if mod is None:
@@ -345,4 +365,4 @@ def run_extra(pid, tier, seed, exe, workdir, V):
     return mod(pid, tier, seed, exe, workdir, V)
 
 
-EXTRA = {'C14': clone_engine, 'C19': fuzz_engine, 'C09': lock_engine, 'C08': race_engine, 'C12': pair_engine, 'C18': golden_engine}
+EXTRA = {'C16': tags_engine, 'C14': clone_engine, 'C19': fuzz_engine, 'C09': lock_engine, 'C08': race_engine, 'C12': pair_engine, 'C18': golden_engine}
